@@ -38,7 +38,7 @@ Methods == { [api |-> "etcd",  m |-> "Txn",           kind |-> "write"],
              [api |-> "brain", m |-> "Watch",         kind |-> "watch"] }
 RolesSet == {"leader", "follower"}
 ProxySet == {"on", "off"}
-LeaderStates == {"reachable", "unreachable", "error"}
+LeaderStates == {"reachable", "unreachable", "error", "cut"}   \* "cut": the leader dies after the 200 OK head of /status, before the body
 
 \* the decision: "execute" locally, "forward" to the leader, "reject" as unavailable,
 \* "sync-read" (adopt the leader's revision, then read locally), "fail" (error, no data)
